@@ -334,6 +334,13 @@ def mappingSchemaPass (env : Env) (recN : RecN) (ctx : Ctx) (s : NState) (f : Ke
   | .error .schemaRuleType => pure s      -- `except _SchemaRuleTypeError: pass`
   | .error x => .error x
 
+/-- the `schema` constraint handed to the items of a sequence: a schema for mappings given by
+    reference is replaced by its definition, like the same schema written inline (after the repair of F33) -/
+def seqConstraint (env : Env) (c : Val) : Val :=
+  match c with
+  | .str name => match env.schemas name with | some d => d | none => c
+  | _ => c
+
 def seqPass (recN : RecN) (ctx : Ctx) (s : NState) (f : Key) (tup : Bool) (rule : String)
     (cschema : List (Key Ã— Val)) (xs : List Val) : M NState :=
   match recN (ctx.child (.dict s.m) {} (some f) [f, kS rule]) (.dict cschema) (Val.enumDict xs) with
@@ -367,8 +374,9 @@ def containers (env : Env) (recN : RecN) (ctx : Ctx) (rs : RSchema) : List Key â
         match own with
         | some o =>
           match o.dget? (kS "schema") with
-          | some c => seqPass recN ctx s f tup "schema"
-                        ((List.range xs.length).map (fun i => (Key.i (Int.ofNat i), c))) xs
+          | some c =>
+            seqPass recN ctx s f tup "schema"
+              ((List.range xs.length).map (fun i => (Key.i (Int.ofNat i), seqConstraint env c))) xs
           | none =>
             match o.dget? (kS "items") with
             | some items => do
